@@ -150,6 +150,15 @@ CHECKS.update({
    design_ref="DESIGN.md §3 C16"),
 })
 
+CHECKS.update({
+ "C19": dict(
+   category="exploration",
+   text="(a) The real Shutdown under a small deterministic executor (one ready task polled per step): depth-first enumeration of every scheduling choice for 72 scenarios with 1-2 participants (start delays, work lengths, submit/wait delays; 51 enumerated exhaustively, the rest and two 3-participant scenarios up to a cap) and seeded random walks with 3-8 participants - 56k (quick) / millions (thorough) schedules, ~800 distinct event orders; oracle on the recorded event log: a participant registered before submit observes the notification unless its own work ended first, Completed never precedes the Finished of a registered participant, and completion() returns once all have finished and nothing is runnable. (b) The real Tunnel / ping / speedtest handlers on in-memory HTTP/1.1 and HTTP/2 sessions on an 8-thread runtime, 150-4000 rounds with random yields: every client sees a graceful end (GOAWAY resolves the h2 connection cleanly; h1 transport closed), completion() returns and all handlers have finished. (c) The real trusttunnel_endpoint binary with an open HTTP/2 CONNECT stream receives SIGINT.",
+   note="Trusted: tokio broadcast/mpsc being runtime-agnostic (they only use wakers); late registrants (while completion() holds the lock) are recorded, not judged. Known finding: main.rs exits before completion (no GOAWAY on SIGINT).",
+   technique="runtime monitoring: exhaustive schedule enumeration of the real primitive on a deterministic executor + multi-thread stress of the real handlers + signal test of the real binary",
+   design_ref="DESIGN.md §3 C19"),
+})
+
 NOT_YET = "check not built yet in this session (designed in DESIGN.md §3; harness work in progress)"
 
 def main():
